@@ -1126,7 +1126,10 @@ class SessionTransaction(_StateChange, TransactionalContext):
             # expunge; an expunged object became transient and has no key
             if s not in to_expunge:
                 s.key = oldkey
-                self.session.identity_map.replace(s)
+                # an object that was expunged by the application in the
+                # meantime gets its key back but stays out of this Session
+                if s.session_id == self.session.hash_key:
+                    self.session.identity_map.replace(s)
 
         for s in set(self._deleted).union(self.session._deleted):
             self.session._update_impl(s, revert_deletion=True)
